@@ -205,6 +205,9 @@ func (r *Run) Finish() int {
 	}
 	b, _ := json.MarshalIndent(ev, "", " ")
 	evDir := filepath.Join(VerifRoot(), "evidence")
+	if !strings.HasPrefix(r.Prop, "C") {
+		evDir = filepath.Join(VerifRoot(), "growth", "evidence") // specification growth beyond the listed properties: not part of the claimed evidence
+	}
 	if d := os.Getenv("VERIF_EVIDENCE_DIR"); d != "" {
 		evDir = d // runs against a deliberately changed tree (tools/try_mutant.sh) keep their evidence apart
 	}
